@@ -17,9 +17,10 @@ from props import _handles as HD
 from props import _ftp as F
 from props import _multiexact as MX
 from props import _ftpexact as FX
+from props import _mountexact as MNT
 
 EXTRA_PROOF_MODULES = ("FsProofs.MemRefines", "FsProofs.WrapRefines", "FsProofs.OsRefines", "FsProofs.HandleLaws",
-                       "FsProofs.MultiRefines", "FsProofs.FtpRefines")
+                       "FsProofs.MultiRefines", "FsProofs.FtpRefines", "FsProofs.MountRefines")
 
 QUERY_ON_INVALID_OK = {"exists", "isdir", "isfile"}
 
@@ -98,7 +99,10 @@ def run(rep, tier, seed, deep=False):
                 "Ref.step (verdict, value, tree) from the identical pre-state; distinct = distinct (backend, op, pre-tree); "
                 "sub-mem / wrap-mem steps re-executed with PARENT snapshots and compared exactly with wrapm.step "
                 "(FsModel.Wrap over FsModel.Mem), plus a directed corpus (closed wrappers, root branches, climbing, "
-                "exception classes)"
+                "exception classes); mount / mount-root steps re-executed with MEMBER snapshots (default_fs + every mounted "
+                "filesystem) and compared exactly with mountfs.step (FsModel.MountFs over FsModel.Mem), plus histories on "
+                "mount-nested / MountFS-in-MountFS and a directed corpus (spellings around mount points, fixtures, cross-member "
+                "two-path operations, closed MountFS, NUL paths)"
                 % (n_hist, n_ops, S.WRITABLE))
     rep.assumptions = [
         "directory sizes, timestamps and listing order are outside the observable tree",
@@ -141,6 +145,16 @@ def run(rep, tier, seed, deep=False):
         rep.extra["multi_exact_steps"] = MX.judge_multi_exact(
             rep, steps, drv, ref_judge=judge, seed_rng=vlib.rng_for(seed, "c01-multifs"),
             n_hist=12 if quick else 150, n_ops=20 if quick else 40)
+        # MountFS is tied the same way to the functor model FsModel.MountFs over FsModel.Mem members (`mountfs.step`),
+        # at the level of the MEMBERS: error class, value, the tree of default_fs and of every mounted filesystem,
+        # closed flags (FsProofs/MountRefines.lean proves that this model refines Ref on the glued tree when the
+        # members do, at every nesting); plus histories on a MountFS mounted inside a MountFS and a directed corpus
+        import time as _time
+        _t0 = _time.time()
+        rep.extra["mount_exact_steps"] = MNT.judge_mount_exact(
+            rep, steps, drv, ref_judge=judge, rng=vlib.rng_for(seed, "c01-mount"), n_hist=6 if quick else 60,
+            n_ops=20 if quick else 40, max_steps=None if quick else 30000)
+        rep.extra["mount_exact_seconds"] = round(_time.time() - _t0, 1)
         # OSFS / TempFS / SubFS(OSFS) are tied the same way to FsModel.Os (+ Posix, + the GENERATED errno
         # table) and FsModel.OsSub: exact error class, exact tree up to entry order; the POSIX model
         # itself is compared with the kernel, the extracted table with the live one
@@ -177,6 +191,12 @@ def replay(rep, case):
     if case["case"].get("multifs_stack"):
         try:
             MX.replay_case(rep, case["case"], vlib.Driver(), ref_judge=judge)
+        finally:
+            H.cleanup_scratch()
+        return 1 if rep.violations else 0
+    if case["case"].get("mountfs_kind"):
+        try:
+            MNT.replay_case(rep, case["case"], vlib.Driver())
         finally:
             H.cleanup_scratch()
         return 1 if rep.violations else 0
